@@ -78,7 +78,7 @@ def get_convergence_format(epsilon: float, max_decimals: int = 10) -> str:
     # Get number of decimal places needed to show changes above epsilon
     # Add 1 to ensure we can see changes until below epsilon
     decimal_places = -int(np.floor(np.log10(epsilon))) + 1
-    # Cap at max_decimals
-    decimal_places = min(decimal_places, max_decimals)
+    # Cap at max_decimals, and never below zero (thresholds of 100 or more)
+    decimal_places = max(0, min(decimal_places, max_decimals))
 
     return f".{decimal_places}f"
